@@ -26,8 +26,22 @@ func Root() string {
 }
 
 type childLine struct {
-	Start *int    `json:"start,omitempty"`
-	Res   *Result `json:"res,omitempty"`
+	Start   *int       `json:"start,omitempty"`
+	Res     *Result    `json:"res,omitempty"`
+	Partial *Violation `json:"partial,omitempty"` // a violation of the running case, written at once
+	Judged  *int64     `json:"judged,omitempty"`  // evaluations of the running case so far
+}
+
+var earlyOut *os.File
+
+// ReportEarly writes a violation of the running case to the child's result
+// file immediately, so that it survives if the process dies later in the case.
+func ReportEarly(v Violation, judged int64) {
+	if earlyOut == nil {
+		return
+	}
+	b, _ := json.Marshal(childLine{Partial: &v, Judged: &judged})
+	earlyOut.Write(append(b, '\n'))
 }
 
 // ChildMain runs the cases in casesPath sequentially on the main goroutine.
@@ -54,6 +68,7 @@ func ChildMain(propID, casesPath, outPath string) {
 		fmt.Fprintln(os.Stderr, err)
 		os.Exit(3)
 	}
+	earlyOut = out
 	for _, c := range cases {
 		id := c.ID
 		b, _ := json.Marshal(childLine{Start: &id})
@@ -71,6 +86,10 @@ func ChildMain(propID, casesPath, outPath string) {
 			res = NewResult()
 		}
 		res.ID = c.ID
+		if _, ok := c.P["from"]; ok {
+			cc := c
+			res.Echo = &cc
+		}
 		b, err := json.Marshal(childLine{Res: res})
 		if err != nil {
 			res.Sample = nil
@@ -95,6 +114,15 @@ type runner struct {
 	self    string
 	mu      sync.Mutex
 	nextTmp int
+	nextID  int
+}
+
+// freshID numbers cases created at run time (parts of a resumable case).
+func (rn *runner) freshID() int {
+	rn.mu.Lock()
+	defer rn.mu.Unlock()
+	rn.nextID++
+	return 1000000 + rn.nextID
 }
 
 func (rn *runner) tmp(prefix string) string {
@@ -116,7 +144,7 @@ func (rn *runner) runShard(cases []Case, race bool) shardOutcome {
 		b, _ := json.Marshal(cases)
 		os.WriteFile(cp, b, 0o644)
 		bin := rn.self
-		env := os.Environ()
+		env := append(os.Environ(), rn.prop.ChildEnv...)
 		if race {
 			bin = rn.self + "-race"
 			env = append(env, "GORACE=halt_on_error=1 exitcode=66")
@@ -167,6 +195,7 @@ func (rn *runner) runShard(cases []Case, race bool) shardOutcome {
 		// Collect results.
 		finished := map[int]bool{}
 		started := -1
+		partial := map[int][]Violation{}
 		if f, err := os.Open(op); err == nil {
 			sc := bufio.NewScanner(f)
 			sc.Buffer(make([]byte, 1<<20), 1<<28)
@@ -177,6 +206,9 @@ func (rn *runner) runShard(cases []Case, race bool) shardOutcome {
 				}
 				if l.Start != nil {
 					started = *l.Start
+				}
+				if l.Partial != nil {
+					partial[started] = append(partial[started], *l.Partial)
 				}
 				if l.Res != nil {
 					finished[l.Res.ID] = true
@@ -208,9 +240,38 @@ func (rn *runner) runShard(cases []Case, race bool) shardOutcome {
 		res := NewResult()
 		res.ID = dead.ID
 		class, frame, detail := ClassifyDeath(string(stderr), timedOut)
+		var requeue []Case
 		switch {
 		case class == "oom":
 			res.NotJudged = "oom"
+			if rn.prop.Resumable {
+				if k, ok := lastInputMarker(string(stderr)); ok {
+					lo, hi := int64(0), int64(-1)
+					if v, ok := dead.P["from"]; ok {
+						lo = v
+					}
+					if v, ok := dead.P["to"]; ok {
+						hi = v
+					}
+					mk := func(from, to int64) Case {
+						c := dead
+						c.ID = rn.freshID()
+						c.P = map[string]int64{}
+						for kk, vv := range dead.P {
+							c.P[kk] = vv
+						}
+						c.P["from"], c.P["to"] = from, to
+						return c
+					}
+					// inputs before k were judged in the dead run (their
+					// violations were written early); go on after k
+					res.Evals = int64(k) - lo
+					res.Viol = append(res.Viol, partial[dead.ID]...)
+					if hi < 0 || int64(k)+1 < hi {
+						requeue = append(requeue, mk(int64(k)+1, hi))
+					}
+				}
+			}
 		case class == "watchdog":
 			oc.inconclusive = append(oc.inconclusive, fmt.Sprintf("watchdog (%ds, race=%v) on case %d kind=%s seed=%d: %s", to, race, dead.ID, dead.Kind, dead.Seed, tail(detail, 1500)))
 			res.NotJudged = "watchdog"
@@ -221,14 +282,26 @@ func (rn *runner) runShard(cases []Case, race bool) shardOutcome {
 			})
 		}
 		oc.results = append(oc.results, res)
-		cases = cases[idx+1:]
+		cases = append(requeue, cases[idx+1:]...)
 		restarts++
-		if restarts > 40 {
-			oc.inconclusive = append(oc.inconclusive, "more than 40 child deaths in one shard; remaining cases not run")
+		if restarts > 400 {
+			oc.inconclusive = append(oc.inconclusive, "more than 400 child deaths in one shard; remaining cases not run")
 			break
 		}
 	}
 	return oc
+}
+
+var reInput = regexp.MustCompile(`(?m)^@input (\d+)`)
+
+// lastInputMarker finds the last "@input k" line a resumable case printed.
+func lastInputMarker(stderr string) (int, bool) {
+	m := reInput.FindAllStringSubmatch(stderr, -1)
+	if len(m) == 0 {
+		return 0, false
+	}
+	k, err := strconv.Atoi(m[len(m)-1][1])
+	return k, err == nil
 }
 
 func tail(s string, n int) string {
@@ -404,6 +477,15 @@ func ParentMain(propID, tier, replay string) int {
 		cases = []Case{rf.Case}
 	} else {
 		cases = p.Plan(seed, tier)
+		if only := os.Getenv("VERIF_ONLY_KIND"); only != "" {
+			var f []Case
+			for _, c := range cases {
+				if c.Kind == only {
+					f = append(f, c)
+				}
+			}
+			cases = f
+		}
 		for i := range cases {
 			cases[i].ID = i
 		}
@@ -509,6 +591,9 @@ func ParentMain(propID, tier, replay string) int {
 	}
 	var viols []vrec
 	for _, r := range results {
+		if r.Echo != nil {
+			byID[r.ID] = *r.Echo
+		}
 		if !r.racePhase {
 			if r.Evals > 0 {
 				evaluations += int(r.Evals)
